@@ -296,7 +296,23 @@ SectionB == [id |-> Id("section"), labels |-> Labels("section"),
                           [op |-> "qtable", h |-> 1, dim |-> 3, sph |-> sph, props |-> SectionProps, may_throw |-> TRUE,
                            also2d |-> [x |-> 4, z |-> 5, rel |-> Dec(1, -9), abs |-> Dec(1, -9)], rows |-> SRows] >>]
 
-Emit == ~done \/ (PrintT(<<"B", ToJson(SectionB)>>) /\ PrintT(<<"J", ToJson(ThreadJob)>>) /\ PrintT(<<"B", ToJson(FiniteB)>>) /\ PrintT(<<"B", ToJson(PurityB)>>) /\ PrintT(<<"B", ToJson(CullB)>>)
+(* the same along the cross section of the document written against the second frame: the section's end points are moved with
+   everything else (on the sphere across or beyond the +-180 meridian, possibly only one of the two) *)
+SMRow(f, s, d) ==
+  LET sc == Sections[sec]  o == sc[1]  dd == sc[2] IN
+  IF sph THEN <<RE - d, Rat(o[1] * dd[3] + s * dd[1] + 100 * f.dlon * dd[3], 100 * dd[3]), Rat(o[2] * dd[3] + s * dd[2], 100 * dd[3]), d,
+                Mul(RE - d, Cos(Rad(Rat(s, 100)))), Mul(RE - d, Sin(Rad(Rat(s, 100))))>>
+  ELSE LET x == o[1] * dd[3] + s * dd[1]  y == o[2] * dd[3] + s * dd[2]      \* the point on the base section, times dd[3] (km)
+       IN <<Rat((f.c * x - f.s * y + f.n * f.tx * dd[3]) * Km, f.n * dd[3]), Rat((f.s * x + f.c * y + f.n * f.ty * dd[3]) * Km, f.n * dd[3]), HM - d, d, s * Km, HM - d>>
+SMRows(f) == LET ss == SetToSeq({-200 + 157 * i : i \in 0..13}) IN
+             FlattenSeq([k \in 1..Len(ss) |-> [i \in 1..Len(DepthsM) |-> SMRow(f, ss[k], DepthsM[i])]])
+SectionMovedB == LET f == Frames(sph)[frame] IN
+                 [id |-> Id("section-moved"), labels |-> Labels("section"),
+                  steps |-> << [op |-> "create", h |-> 1, wb |-> DocF(f), expect |-> "any"],
+                               [op |-> "qtable", h |-> 1, dim |-> 3, sph |-> sph, props |-> SectionProps, may_throw |-> TRUE,
+                                also2d |-> [x |-> 4, z |-> 5, rel |-> Dec(1, -9), abs |-> Dec(1, -9)], rows |-> SMRows(f)] >>]
+
+Emit == ~done \/ (PrintT(<<"B", ToJson(SectionMovedB)>>) /\ PrintT(<<"B", ToJson(SectionB)>>) /\ PrintT(<<"J", ToJson(ThreadJob)>>) /\ PrintT(<<"B", ToJson(FiniteB)>>) /\ PrintT(<<"B", ToJson(PurityB)>>) /\ PrintT(<<"B", ToJson(CullB)>>)
                   /\ PrintT(<<"B", ToJson(WrapperB)>>) /\ PrintT(<<"B", ToJson(MotionB)>>))
 
 (* the machine only ever appends well-formed features; the frames are rigid *)
